@@ -135,7 +135,7 @@ Proof. vm_compute. repeat split. Qed.
    arbitrary types) are registered and unregistered, other clients connect, between the messages *)
 Definition good_ext : list Z := [16; 30; 77; 200]%Z.
 Example complete_fixed_nonvacuous :
-  let cf := cfgF false good_ext in
+  let cf := cfgF false good_ext false in
   let p0 := run cf proc_init [OScreen demo_screen; OScreen open_screen; OReg 2; ORand demo_chal] in
   let tr := [OConn 1 false v38 false; OReg 3; OSend 1 [1%N] false; OUnreg 2; OConn 0 true v38 false; OReg 5] in
   acyc (p_hs p0) = true /\ ext_ok good_ext /\ nth_error (p_screens p0) 0 = Some demo_screen /\
@@ -149,6 +149,18 @@ Proof.
   split; [reflexivity|]. split; [reflexivity|]. split; [left; reflexivity|].
   split; [vm_compute; reflexivity|]. split; vm_compute; reflexivity.
 Qed.
+
+(* ---- TightVNC security type 16 with the library's own handler registered (object 2): the client
+   sends type 16, the 4-byte authentication type and (for VNC authentication) the response in one go *)
+Definition tight_cfg : cfg := cfgF true default_ext true.
+Definition tight_trace (auth resp : list N) : list op :=
+  [OScreen demo_screen; OReg 2; ORand demo_chal; OConn 0 false v38 false; OSend 0 ([16%N] ++ auth ++ resp) false].
+Lemma tight_negotiation :
+  map c_st (p_conns (run tight_cfg proc_init (tight_trace [0;0;0;1]%N []))) = [StClosed] /\
+  map c_st (p_conns (run tight_cfg proc_init (tight_trace [0;0;0;2]%N demo_resp))) = [StInit] /\
+  map c_st (p_conns (run tight_cfg proc_init (tight_trace [0;0;0;2]%N demo_chal))) = [StClosed] /\
+  map c_st (p_conns (run tight_cfg proc_init (tight_trace [0;0;0;2]%N []))) = [StClosed].
+Proof. vm_compute. repeat split. Qed.
 
 (* ---- view-only: authPasswdFirstViewOnly at every position of a 3-password list, each password *)
 Definition vo_screen (fvo : Z) : screen := mkScreen (PwList [[120%N]; demo_pw; demo_pw2] fvo) 4 3 [].
